@@ -60,3 +60,12 @@ Definition accept_C12_grid (c : gr_obj * usys) (o : jv * list (jv * jv)) : verdi
   (jv_eqb (model_write_g g) written
    && forallb (fun io : jv * jv => match model_read_g parent (fst io) with Ok g' => jv_eqb (model_write_g g') (snd io) | Err => jv_eqb JNull (snd io) end) variants,
    S (length variants)).
+
+Definition gp_obj := graph_obj str.
+Definition model_write_gp (g : gp_obj) : jv := write_graph str (fun t => t) wr12 g.
+Definition model_read_gp (parent : usys) (v : jv) : res gp_obj := read_graph str (fun t => Some t) [48%N; 46%N; 48%N] [49%N; 46%N; 48%N] parent v.
+Definition accept_C12_graph (c : gp_obj * usys) (o : jv * list (jv * jv)) : verdict :=
+  let '(g, parent) := c in let '(written, variants) := o in
+  (jv_eqb (model_write_gp g) written
+   && forallb (fun io : jv * jv => match model_read_gp parent (fst io) with Ok g' => jv_eqb (model_write_gp g') (snd io) | Err => jv_eqb JNull (snd io) end) variants,
+   S (length variants)).
